@@ -470,6 +470,11 @@ def _directed() -> Dict[str, Dict[str, Any]]:
                                            'REG = {"k": register}\n@overload\n@register("str")\ndef f(a: str) -> str: ...\n@overload\n@REG["k"]("int")\ndef f(a: int) -> int: ...\n@t.overload\n@register(1)(2)\ndef f(a: bytes) -> bytes: ...\n'
                                            'def f(a):\n    "doc"\n    return a\nclass K:\n    @overload\n    @register("x")\n    def m(self, a: int) -> int: ...\n    @register("y")\n    @overload\n    def m(self, a: str) -> str: ...\n    def m(self, a):\n        "doc"\n',
                                            'pkg/good.py': GOOD})
+    # types of documented variables that fail inside the renderer (characters XML cannot carry), in every markup
+    add('docstring-types-unrenderable', {'pkg/__init__.py': '', 'pkg/e.py': '__docformat__ = "epytext"\nclass K:\n    """Doc.\n\n    @ivar v: d\n    @type v: in\ufffft\n    @cvar w: d\n    @type w: list of x\xa0y\n    """\n',
+                                          'pkg/r.py': '__docformat__ = "restructuredtext"\nclass K:\n    """Doc.\n\n    :ivar v: d\n    :type v: in\ufffft\n    """\n"""Module.\n\n:var m: d\n:type m: in\ufffet\n"""\n',
+                                          'pkg/g.py': '__docformat__ = "google"\nclass K:\n    """Doc.\n\n    Attributes:\n        v (in\ufffft): d\n        w (x\xa0y): d\n    """\n',
+                                          'pkg/n.py': '__docformat__ = "numpy"\nclass K:\n    """Doc.\n\n    Attributes\n    ----------\n    v : in\ufffft\n        d\n    """\n', 'pkg/good.py': GOOD})
     add('reexport-own-package', {'pkg/__init__.py': '', 'pkg/a/__init__.py': 'x = 1\nclass InA: pass\n', 'pkg/a/b.py': 'from pkg import a\nfrom pkg.a import InA\nimport pkg\n__all__ = ["a", "InA", "pkg"]\n',
                                   'pkg/a/c.py': 'from .. import a as renamed\nfrom . import c\n__all__ = ["renamed", "c"]\n', 'pkg/good.py': GOOD})
     add('same-path-twice', {'pkg/__init__.py': '', 'pkg/good.py': GOOD}, roots=['pkg', 'pkg'])
